@@ -155,6 +155,67 @@ def needle_status(repo: Repo, f: FuncInfo, e: ast.expr, depth: int = 0) -> str:
     return "unknown"
 
 
+def _truncated(e: ast.expr) -> str | None:
+    """Name of the variable when `e` cuts exactly one trailing component off it: v.rpartition(".")[0], v.rsplit(".", 1)[0],
+    v[: v.rfind(".")], ".".join(v.split(".")[:-1])."""
+    def dot(c: ast.expr) -> bool:
+        return isinstance(c, ast.Constant) and c.value == "."
+
+    if isinstance(e, ast.Subscript) and isinstance(e.slice, ast.Constant) and e.slice.value == 0 and isinstance(e.value, ast.Call) and isinstance(e.value.func, ast.Attribute) and isinstance(e.value.func.value, ast.Name):
+        c = e.value
+        if c.func.attr == "rpartition" and len(c.args) == 1 and dot(c.args[0]):
+            return c.func.value.id
+        if c.func.attr == "rsplit" and len(c.args) == 2 and dot(c.args[0]) and isinstance(c.args[1], ast.Constant) and c.args[1].value == 1:
+            return c.func.value.id
+    if isinstance(e, ast.Subscript) and isinstance(e.slice, ast.Slice) and e.slice.lower is None and isinstance(e.value, ast.Name):
+        u = e.slice.upper
+        if isinstance(u, ast.Call) and isinstance(u.func, ast.Attribute) and u.func.attr in ("rfind", "rindex") and isinstance(u.func.value, ast.Name) and u.func.value.id == e.value.id and u.args and dot(u.args[0]):
+            return e.value.id
+    if isinstance(e, ast.Call) and isinstance(e.func, ast.Attribute) and e.func.attr == "join" and dot(e.func.value) and len(e.args) == 1:
+        a = e.args[0]
+        if isinstance(a, ast.Subscript) and isinstance(a.slice, ast.Slice) and a.slice.lower is None and isinstance(a.slice.upper, ast.UnaryOp) and isinstance(a.slice.upper.operand, ast.Constant) and a.slice.upper.operand.value == 1:
+            c = a.value
+            if isinstance(c, ast.Call) and isinstance(c.func, ast.Attribute) and c.func.attr == "split" and isinstance(c.func.value, ast.Name) and c.args and dot(c.args[0]):
+                return c.func.value.id
+    return None
+
+
+def single_level_parent_tests(funcs: list[FuncInfo]) -> list[tuple[FuncInfo, ast.AST, str]]:
+    """Comparisons of a listed module with the *direct* parent of the looked-up name only (one component cut off, never cut again
+    in a loop): a module two or more levels below a listed module would not be attributed to its layer."""
+    out = []
+    for f in funcs:
+        if isinstance(f.node, ast.Lambda):
+            continue
+        nodes = list(own_nodes(f.node))
+        single: dict[str, ast.expr] = {}
+        counts: dict[str, int] = {}
+        for n in nodes:
+            if isinstance(n, ast.Name) and isinstance(n.ctx, ast.Store):
+                counts[n.id] = counts.get(n.id, 0) + 1
+            if isinstance(n, ast.Assign) and len(n.targets) == 1 and isinstance(n.targets[0], ast.Name):
+                single[n.targets[0].id] = n.value
+        # variables that are cut again and again (walking up the hierarchy)
+        walked: set[str] = set()
+        for n in nodes:
+            if isinstance(n, (ast.While, ast.For)):
+                for x in ast.walk(n):
+                    if isinstance(x, ast.Assign) and len(x.targets) == 1 and isinstance(x.targets[0], ast.Name):
+                        v = _truncated(x.value)
+                        if v is not None and v == x.targets[0].id:
+                            walked.add(v)
+        for n in nodes:
+            if isinstance(n, ast.Compare) and len(n.ops) == 1 and isinstance(n.ops[0], (ast.Eq, ast.NotEq, ast.In, ast.NotIn)):
+                for side in (n.left, n.comparators[0]):
+                    e = side
+                    if isinstance(e, ast.Name) and counts.get(e.id) == 1 and e.id in single and e.id not in f.param_names:
+                        e = single[e.id]
+                    v = _truncated(e)
+                    if v is not None and v not in walked and (v in f.param_names or counts.get(v, 0) <= 1):
+                        out.append((f, n, v))
+    return out
+
+
 def check_layer_lookup_names(repo: Repo, res: Result) -> None:
     lmap = repo.cls(EVAL_ARCH, "LayerMapping")
     lookup = repo.lookup_method(lmap, "get_layer_for_module_name")
@@ -192,6 +253,8 @@ def check_layer_lookup_names(repo: Repo, res: Result) -> None:
             res.undecide("C05.R5", key, why, where(s.fi, s.node))
         elif verdict == "unclassified":
             res.observe(f"C05.R5 unclassified (not armed) {s.fi.relpath}::{s.fi.qualname}: `{norm(s.node, 60)}` - {why}")
+    for f, node, var in single_level_parent_tests(list(reach)):
+        res.add("C05.R5", repo.key(f, stmt_of(node)) + " [direct parent only]", False, f"`{norm(node, 80)}` compares a listed module with the direct parent of `{var}` only: a module two or more levels below a listed module is not attributed to its layer (a layer is its listed modules and *all* their descendants)", where(f, node), kind="structural")
     res.add("C05.R5", "fixture::engine/fixtures/name_ops.py", True, names.fixture_selfcheck(), nontrivial=False)
     res.analysed["layer_lookup_functions"] = len(reach)
     res.analysed["layer_lookup_name_sites"] = n
